@@ -50,8 +50,14 @@ class Ctx:
     # -- functions under contract ---------------------------------------------------------------------
     def fn(self, rel, path, key, props, ret=None, spec='', body_prefix='', rewrites=(), sig_rewrites=(),
            prose='body verifies: no panic (unwrap/expect/index/overflow) and every callee precondition holds',
-           pub=True, inserts=(), probe=True, attrs='', transforms=()):
-        e = extract(self.repo, rel, path, key=key)
+           pub=True, inserts=(), probe=True, attrs='', transforms=(), optional=False):
+        try:
+            e = extract(self.repo, rel, path, key=key)
+        except AnchorLost as err:
+            if not optional:
+                raise
+            self.note('function %s no longer exists in the source (%s): its obligations are dropped; the callers\' contracts still have to hold' % (key, err))
+            return '// ---- (gone) %s\n' % key
         e.strip_docs()
         e.inner_attrs()
         e.drop_log_macros()
@@ -161,18 +167,29 @@ class Ctx:
         compile).  They are copied with the standard rule pipeline and NO contract: Kani simply executes them; for Verus a
         caller that depends on one cannot be proved and its failure is reported as undecided, never as a violation."""
         out = ['// @HELPERS (auto-included callees; none on the pinned tree)']
-        for (rel, impl_hdr, name) in self.helper_requests:
-            path = ('impl %s :: fn %s' % (impl_hdr, name)) if impl_hdr else ('fn %s' % name)
+        for (rel, impl_hdr, name, kw) in self.helper_requests:
+            path = ('impl %s :: %s %s' % (impl_hdr, kw, name)) if impl_hdr else ('%s %s' % (kw, name))
             e = extract(self.repo, rel, path, key='helper:' + name)
             e.strip_docs(); e.inner_attrs(); e.drop_log_macros()
             e.replace_macro('anyhow', 'Error::msg()'); e.replace_macro('bail', 'return Err(Error::msg())')
             for rw in self.helper_rewrites:
                 e.rewrite(**dict(rw, optional=True))
             e.make_pub()
-            e.log('AUTO', 'helper auto-included without contract')
+            pre = ''
+            if kw == 'const':
+                if re.search(r'=\s*(-?\d[\d_]*(?:[ui](?:8|16|32|64|128|size))?|true|false)\s*;\s*$', e.text):
+                    e.log('AUTO', 'constant with a literal value auto-included as is')   # value visible to the verifier: not a taint
+                else:
+                    if self.flavour == 'verus':
+                        e.text = re.sub(r'^pub\s+const\b', 'pub exec const', e.text.lstrip())
+                        pre = '#[verifier::external_body] '
+                    e.log('AUTO', 'constant auto-included; its value is opaque to Verus')
+                    self.helpers.append(name)
+            else:
+                e.log('AUTO', 'helper auto-included without contract')
+                self.helpers.append(name)
             self.extracted.append(e)
-            self.helpers.append(name)
-            txt = '// ---- auto-included helper: %s :: %s\n%s\n' % (rel, path, e.text)
+            txt = '// ---- auto-included helper: %s :: %s\n%s%s\n' % (rel, path, pre, e.text)
             if impl_hdr:
                 txt = 'impl %s {\n%s}\n' % (impl_hdr, txt)
             out.append(txt)
